@@ -7,7 +7,8 @@ from props.c07 import mprime
 RULE = ("for each set, for valid (pk, M, sig) triples: EVERY single-bit flip of the signature (exhaustive, 8*SIGNBYTES verifications in the crate), "
         "truncation and extension by 1..8 bytes, every single-bit flip and +-1-byte change of short messages, other context / mode / hash (incl. over-long "
         "contexts of 256, 257, 300, 511, 512 bytes against a signature for the framing with the wrapped length byte), another key, "
-        "and the sibling scheme of equal sizes (Dilithium2 <-> ML-DSA-44, keys of other seeds); each must be rejected. The model re-evaluates a "
+        "the sibling scheme of equal sizes (Dilithium2 <-> ML-DSA-44, keys of other seeds), EVERY single-bit flip of the public key (exhaustive), crafted cross-mode "
+        "messages (OID||H(m) in pure mode against a pre-hash signature and conversely) and framed representatives offered as bare messages; each must be rejected. The model re-evaluates a "
         "stratified sample of the flips (challenge, each z polynomial region, hint indices, counters, padding; each bit position) and must agree. "
         "Non-trivial = every altered input; distinct by (set, altered triple).")
 ASSUMPTIONS = ["rejection of altered data is a strong-unforgeability statement resting on SHAKE-256 collision resistance and SelfTargetMSIS; what is "
@@ -79,6 +80,17 @@ def extra(rep, cov, tier, rng):
                     if bit >= 0: e[bit // 8] ^= 1 << (bit % 8)
                     rep.violation("a signature with bit %d flipped verifies (%d accepted flips), or the genuine one does not (%s)" % (bit, -1 if r is None else r[0], cp),
                                   {"cases": [{"fn": "verify", "copy": cp, "args": [fmt_arg(bytes(e)), fmt_arg(m), fmt_arg(pk)]}]}, True)
+                if mlen == 5:
+                    # every single-bit flip of the public key (another key that differs from the signer's in one bit only)
+                    r = crate([("verify_pk_flips", cp, [sig, m, pk])])[0]
+                    total += 8 * len(pk)
+                    if r is None or r[2] != 1 or r[0] != 0:
+                        bit = -1 if r is None else r[1]
+                        e = bytearray(pk)
+                        if bit >= 0: e[bit // 8] ^= 1 << (bit % 8)
+                        rep.violation("a genuine signature verifies under a public key with bit %d flipped (%d accepted flips), or not under the genuine one (%s)"
+                                      % (bit, -1 if r is None else r[0], cp),
+                                      {"cases": [{"fn": "verify", "copy": cp, "args": [fmt_arg(sig), fmt_arg(m), fmt_arg(bytes(e))]}]}, True)
                 calls, why = [], []
                 for k in range(1, 9):
                     calls.append(("verify", cp, [sig[:-k], m, pk])); why.append("truncated by %d" % k)
@@ -114,6 +126,27 @@ def extra(rep, cov, tier, rng):
                     calls.append(("ml_verify", api, [pk, m, sigs[i], c2]) if mode2 == "pure" else
                                  ("ml_prehash_verify", api, [pk, m, sigs[i], c2, 0 if mode2 == "sha256" else 1]))
                     why.append("signed under (%s,%r) verified under (%s,%r)" % (mode, ctx, mode2, ctx2))
+            # crafted cross-mode messages: a pre-hash signature on m must not verify in pure mode on the message OID||H(m) under the
+            # same context (the framings differ in the mode byte only), and conversely; and the framed representative itself,
+            # offered as a bare message without context, must not verify (a verifier must not fall back to an unframed message)
+            from props.c07 import OID as _OID
+            import hashlib as _h
+            for ctx in (None, b"", b"ctx", bytes(rng.randrange(256) for _ in range(255))):
+                c = ctx if ctx is not None else 0
+                for ph, hf in ((0, _h.sha256), (1, _h.sha512)):
+                    mode = "sha256" if ph == 0 else "sha512"
+                    crafted = _OID[ph] + hf(m).digest()
+                    sg_pre = pyref.sign(p, sk, mprime(mode, ctx, m))
+                    sg_pure = pyref.sign(p, sk, mprime("pure", ctx, crafted))
+                    calls.append(("ml_verify", api, [pk, crafted, sg_pre, c])); why.append("pre-hash signature (%s, ctx %r) verified in pure mode on OID||H(m)" % (mode, ctx))
+                    calls.append(("ml_prehash_verify", api, [pk, m, sg_pure, c, ph])); why.append("pure signature on OID||H(m) (ctx %r) verified in pre-hash mode %s" % (ctx, mode))
+                    calls.append(("ml_verify", api, [pk, mprime(mode, ctx, m), sg_pre, 0])); why.append("pre-hash signature verified in pure mode without context on its own framed representative")
+                sg = pyref.sign(p, sk, mprime("pure", ctx, m))
+                if ctx:
+                    calls.append(("ml_verify", api, [pk, mprime("pure", ctx, m), sg, 0])); why.append("signature under ctx %r verified without context on its own framed representative" % ctx)
+                calls.append(("verify", cp, [sg, m, pk])); why.append("API signature (ctx %r) verified by the core verifier on the bare message" % ctx)
+            bare = pyref.sign(p, sk, m)
+            calls.append(("ml_verify", api, [pk, m, bare, 0])); why.append("core signature on the bare message verified through the API without context")
             # a context longer than 255 bytes is a different (invalid) context: a signature for (ctx = X[:n mod 256] .., message = rest)
             # whose framed bytes coincide with the wrapped-length framing of (ctx = X, M) must not verify under (X, M)
             from props.c07 import OID
